@@ -1,4 +1,63 @@
+/-
+C13 — A crash at any point leaves the repository consistent and the operation repeatable.
+Property theorems only. Model: Model/Crash.lean (operations as sequences of store writes; a crash is
+a prefix). The ORDER of each operation's writes is regenerated from the source (Facts.writeOrder*);
+the theorems are about the write sequences in exactly that order. PARTIAL: each store call is
+assumed atomic and durable (badger / SQLite below one call are not modelled); "re-running ends in
+the uninterrupted outcome" is established by the correspondence runs (content addressing makes
+the re-run write the same objects), not by a theorem.
+-/
 import WrglModel.Model.Crash
+import WrglModel.Lemmas.C13
+import WrglModel.Gen.Facts
 namespace Wrgl
-theorem C13_placeholder : True := trivial
+
+/-! ties to the source: the write orders the theorems below are about -/
+theorem C13_fact_insertBlock : Facts.writeOrderInsertBlock = ["blk", "blkidx"] := by decide
+theorem C13_fact_ingest : Facts.writeOrderIngest = ["blocks", "tblidx", "tblsum", "tbl"] := by decide
+theorem C13_fact_commitCmd : Facts.writeOrderCommitCmd = ["table", "com", "ref"] := by decide
+theorem C13_fact_receiveTable : Facts.writeOrderReceiveTable = ["index", "tblsum", "tbl"] := by decide
+theorem C13_fact_indexTable : Facts.writeOrderIndexTable = ["blkidx", "tblidx"] := by decide
+theorem C13_fact_mergeCommit : Facts.writeOrderMergeCommit = ["com", "ref"] := by decide
+theorem C13_fact_prune : Facts.writeOrderPrune = ["tables", "blk", "blkidx", "com"] := by decide
+
+/-- Generic: if every write finds its prerequisites in the state left by the writes before it, then
+    EVERY prefix of the sequence — every crash point — is a consistent repository: refs resolve,
+    stored commits have their parents, present tables are fully usable, branch heads have their table. -/
+theorem C13_prefix_consistent (u : Universe) (heads : List Nat) (s : RState) (ws : List WOp)
+    (hc : Consistent u heads s)
+    (hp : ∀ k w, ws[k]? = some w → prereqOk u heads (s.applyAll (ws.take k)) w = true) :
+    ∀ n, Consistent u heads (s.applyAll (ws.take n)) :=
+  prefix_consistent u heads s ws hc hp
+
+/-- `wrgl commit` with the write order of the current source, for every table shape, any number of
+    blocks and any parent already present: every crash point is consistent. -/
+theorem C13_commit_prefix_consistent (u : Universe) (heads : List Nat) (s : RState)
+    (t c r : Nat) (blocks idxs parents : List Nat)
+    (hc : Consistent u heads s)
+    (ht : u.table? t = some (blocks, idxs)) (hlen : blocks.length = idxs.length)
+    (hcm : u.commit? c = some (parents, t)) (hpar : ∀ p ∈ parents, p ∈ s.coms) :
+    ∀ n, Consistent u heads (s.applyAll ((commitWrites Facts.writeOrderInsertBlock Facts.writeOrderIngest Facts.writeOrderCommitCmd
+      t blocks idxs c r).take n)) := by
+  rw [C13_fact_insertBlock, C13_fact_ingest, C13_fact_commitCmd]
+  exact commit_writes_safe u heads s t c r blocks idxs parents hc ht hlen hcm hpar
+
+/-- Receipt of a table (fetch / pull / push receiver) after its blocks arrived: block indices, table
+    index and profile are written before the table object, so every crash point is consistent. -/
+theorem C13_receive_prefix_consistent (u : Universe) (heads : List Nat) (s : RState)
+    (t : Nat) (blocks idxs : List Nat)
+    (hc : Consistent u heads s)
+    (ht : u.table? t = some (blocks, idxs)) (hb : ∀ b ∈ blocks, b ∈ s.blks) :
+    ∀ n, Consistent u heads (s.applyAll ((receiveTableWrites Facts.writeOrderIndexTable Facts.writeOrderReceiveTable t idxs).take n)) := by
+  rw [C13_fact_indexTable, C13_fact_receiveTable]
+  exact receive_table_writes_safe u heads s t blocks idxs hc ht hb
+
+/-- The order before the repair (table object first) is NOT safe: the witness that the extracted
+    order carries the theorem. -/
+theorem C13_table_first_is_unsafe :
+    let u : Universe := { commits := [], tables := [(1, [1], [1])] }
+    let s : RState := { blks := [1], idxs := [], tbls := [], tblIdx := [], tblSum := [], coms := [], refs := [] }
+    ¬ Consistent u [] (s.applyAll ((receiveTableWrites ["blkidx", "tblidx"] ["tbl", "index", "tblsum"] 1 [1]).take 1)) :=
+  table_first_is_unsafe
+
 end Wrgl
